@@ -19,7 +19,8 @@ from ..storemc import StoreRun, KEYS, MB
 POPULATE = (("memo", 0, "s", None), ("memo", 1, "X", None), ("memo", 2, "t", "k1"),
             ("wmeta", 0, "log", False), ("wmeta", 2, "aux", True))
 
-VARIANTS = ["arg", "config", "cluster-config", "arg+cache", "cluster-config+cache", "mem"]
+# "+damaged": the data object of one memoized call (key 0) was lost before the store is opened read-only
+VARIANTS = ["arg", "config", "cluster-config", "arg+cache", "cluster-config+cache", "mem", "arg+damaged", "cluster-config+cache+damaged"]
 
 _roots = {}
 
@@ -59,12 +60,20 @@ class RORun:
             if bad:
                 raise HarnessError("population failed: %s" % (bad,))
         w = self.w
+        self.damaged = None
+        if "damaged" in variant:
+            ck = w.mem[0].content_key
+            path = os.path.join(w.dpath, "c", ".versions", ck.version, ck.key.split("/", 1)[1])
+            if not os.path.isfile(path):
+                raise HarnessError("cannot find the data object of key 0 to remove it: %s" % path)
+            os.unlink(path)
+            self.damaged = 0
         cache = 4096 / MB if "cache" in variant else None
         if kind == "fs":
             if variant.startswith("arg"):
                 be = FilesystemStorageBackend(path=w.dpath, metadata_path=w.mpath, memory_cache_mb=cache, read_only=True)
                 cluster = m.FunctionCluster(name="vfc", storage=be)
-            elif variant == "config":
+            elif variant.startswith("config"):
                 be = FilesystemStorageBackend(config={"path": w.dpath, "metadata_path": w.mpath, "readonly": True})
                 cluster = m.FunctionCluster(name="vfc", storage=be)
             else:
@@ -147,7 +156,7 @@ class RORun:
                     elif modifier == "local":
                         f = f.force_local()
                     ki = next((i for i, (s, a) in enumerate(KEYS) if s == name + "#1" and a == arg), None)
-                    memoized = ki is not None and self.w.model.live(ki)
+                    memoized = ki is not None and self.w.model.live(ki) and (ki != self.damaged or modifier == "ignore")
                     try:
                         got = f(arg)
                     except Exception as e:
@@ -177,6 +186,12 @@ class RORun:
                         else:
                             m.forget_cluster("vfc")
                         bad = ("not-rejected", "%s was accepted on a read-only store" % kind)
+                    except Exception:
+                        pass
+                elif kind == "read" and op[1] == self.damaged:
+                    # the result of this call is lost: the read may fail in any way - but must not change the store
+                    try:
+                        self.be.read_result(self.be.get_memento(storeh.rah(*KEYS[op[1]])))
                     except Exception:
                         pass
                 else:
@@ -345,7 +360,7 @@ def run(ctx):
     ctx.rule = ("read-only: BFS over histories of storage ops (memoize, lookups, reads, listings, forget call/function/"
                 "everything, metadata writes plain/with-data) and function-level ops (calls of memoized and un-memoized "
                 "functions with modifiers, forget, forget_all, put_metadata, forget_cluster) on a pre-populated store "
-                "opened read-only in 6 ways; oracle after each transition: no mutating audit event under the roots, tree "
+                "opened read-only in 6 ways (2 more with the data object of one call lost beforehand); oracle after each transition: no mutating audit event under the roots, tree "
                 "digest unchanged, reads answer as the model, writes skipped or rejected. null storage/runner: every "
                 "operation sequence to depth 3 (no merging). distinct = canonical (cache, ghost-entry) states and "
                 "distinct observation vectors.")
